@@ -9,6 +9,8 @@ CONSTANTS
   WM = 8
   ConstructSlots <- Slots2
   Unbounded = TRUE
+  Canon = FALSE
+  LinK = 0
   ViewIds <- NoViews
   Ops <- CoreOps
 INVARIANTS TypeOK Refines NoAlias NoUseAfterFree NoDoubleFree NoLeak ConfigKept RoundTrip
